@@ -1,3 +1,299 @@
 import LlgoVerif.Model.TypeStr
+/-!
+# Lemmas for C15: the emitted type string follows Go's grammar
+
+`goStr` is the declarative rendering of `reflect.Type.String()` (plain structural recursion, no flag
+bookkeeping).  `strOk` is the decidable fragment on which llgo's `Str_` + `TFlagExtraStar`
+(`reflectString`) produces it; outside it the check has concrete counterexamples on the real code.
+-/
 namespace LlgoVerif.Types
+
+/-- Go parenthesises exactly `chan (<-chan T)` -/
+def chanParen (d : ChanDir) (e : GoType) : Bool := d == .both && isRecvChan (unalias e)
+
+mutual
+/-- `reflect.Type.String()` as Go defines it; `q` = `strconv.Quote` (for struct tags) -/
+def goStr (q : Str → Str) (env : Env) : GoType → Str
+  | .alias _ a => goStr q env a
+  | .basic k => basicStr k
+  | .pointer e => '*' :: goStr q env e
+  | .slice e => '[' :: ']' :: goStr q env e
+  | .array n e => '[' :: dec n ++ ']' :: goStr q env e
+  | .map k v => litMapOpen ++ goStr q env k ++ ']' :: goStr q env v
+  | .chan d e => chanDirStr d ++ ' ' :: (if chanParen d e then '(' :: goStr q env e ++ [')'] else goStr q env e)
+  | .func ps rs v => litFuncOpen ++ goParams q env ps v ++ ')' :: goResults q env rs
+  | .struct fs => litStructOpen ++ goFields q env fs true ++ (if fs.length = 0 then ['}'] else [' ', '}'])
+  | .iface ms => litIfaceOpen ++ goMethods q env ms true ++ (if ms.isNil then ['}'] else [' ', '}'])
+  | .named _ pkg name _ targs =>
+    let nm := name ++ (if targs.isNil then [] else '[' :: goTargs q env targs ++ [']'])
+    match pkg with
+    | some p => env.pkgName p ++ '.' :: nm
+    | none => nm
+def goParams (q : Str → Str) (env : Env) : TList → Bool → Str
+  | .nil, _ => []
+  | .cons t r, v =>
+    (if r.isNil && v then
+      match t with
+      | .slice e => '.' :: '.' :: '.' :: goStr q env e
+      | _ => ['?']
+    else goStr q env t) ++ (if r.isNil then [] else ',' :: ' ' :: goParams q env r v)
+def goResults (q : Str → Str) (env : Env) : TList → Str
+  | .nil => []
+  | .cons t r =>
+    if r.isNil then ' ' :: goStr q env t
+    else ' ' :: '(' :: goStr q env t ++ goMoreResults q env r ++ [')']
+def goMoreResults (q : Str → Str) (env : Env) : TList → Str
+  | .nil => []
+  | .cons t r => ',' :: ' ' :: goStr q env t ++ goMoreResults q env r
+/-- `name type "tag"` / `type "tag"` for an embedded field, separated by `; ` -/
+def goFields (q : Str → Str) (env : Env) : FList → Bool → Str
+  | .nil, _ => []
+  | .cons name _ emb tag t r, first =>
+    (if first then [' '] else [';', ' ']) ++ (if emb then [] else name ++ [' ']) ++
+      goStr q env t ++ (if tag = [] then [] else ' ' :: q tag) ++ goFields q env r false
+def goMethods (q : Str → Str) (env : Env) : MList → Bool → Str
+  | .nil, _ => []
+  | .cons name pkg sig r, first =>
+    (if first then [' '] else [';', ' ']) ++
+      (match pkg with | some p => env.pkgName p ++ '.' :: name | none => name) ++
+      (goStr q env sig).drop 4 ++ goMethods q env r false
+def goTargs (q : Str → Str) (env : Env) : TList → Str
+  | .nil => []
+  | .cons t r => goTarg q env t ++ (if r.isNil then [] else ',' :: goTargs q env r)
+/-- a type argument: like `goStr`, packages by (PathOf) import path -/
+def goTarg (q : Str → Str) (env : Env) : GoType → Str
+  | .alias _ a => goTarg q env a
+  | .basic k => basicStr k
+  | .named _ pkg name _ targs =>
+    let nm := name ++ (if targs.isNil then [] else '[' :: goTargs q env targs ++ [']'])
+    match pkg with
+    | some p => targPkgPath env p ++ '.' :: nm
+    | none => nm
+  | .iface ms => litIfaceOpen ++ goMethods q env ms true ++ (if ms.isNil then ['}'] else [' ', '}'])
+  | .pointer e => '*' :: goTarg q env e
+  | .slice e => '[' :: ']' :: goTarg q env e
+  | .array n e => '[' :: dec n ++ ']' :: goTarg q env e
+  | .map k v => litMapOpen ++ goTarg q env k ++ ']' :: goTarg q env v
+  | .chan d e => chanDirStr d ++ ' ' :: (if chanParen d e then '(' :: goTarg q env e ++ [')'] else goTarg q env e)
+  | .func _ _ _ => ['?']
+  | .struct _ => ['?']
+end
+
+mutual
+/-- the fragment: no named type with a pointer underlying type, no tags, no closure structs, no
+    pointer-typed (star-flagged) map keys, no `chan (<-chan T)`; type arguments without func /
+    struct (their rendering is the unmodelled `types.TypeString` fall-back) -/
+def strOk (env : Env) : GoType → Bool
+  | .alias _ a => strOk env a
+  | .basic _ => true
+  | .pointer e => strOk env e
+  | .slice e => strOk env e
+  | .array _ e => strOk env e
+  | .map k v => !extraStar env k && strOk env k && strOk env v
+  | .chan d e => !chanParen d e && strOk env e
+  | .func ps rs _ => strOkL env ps && strOkL env rs
+  | .struct fs => !isClosure fs && strOkF env fs
+  | .iface ms => strOkM env ms
+  | .named d _ _ _ targs => !env.underStar d && strOkL env targs
+def strOkL (env : Env) : TList → Bool
+  | .nil => true
+  | .cons t r => strOk env t && targOk t && strOkL env r
+def strOkF (env : Env) : FList → Bool
+  | .nil => true
+  | .cons _ _ _ tag t r => tag == [] && strOk env t && strOkF env r
+def strOkM (env : Env) : MList → Bool
+  | .nil => true
+  | .cons _ _ s r => strOk env s && strOkM env r
+/-- no func / struct anywhere below (used for type arguments) -/
+def targOk : GoType → Bool
+  | .alias _ a => targOk a
+  | .basic _ => true
+  | .pointer e => targOk e
+  | .slice e => targOk e
+  | .array _ e => targOk e
+  | .map k v => targOk k && targOk v
+  | .chan _ e => targOk e
+  | .func _ _ _ => false
+  | .struct _ => false
+  | .iface _ => true
+  | .named _ _ _ _ targs => targOkL targs
+def targOkL : TList → Bool
+  | .nil => true
+  | .cons t r => targOk t && targOkL r
+end
+
+theorem star_pointer (env : Env) (e : GoType) (s : Str) :
+    star env (.pointer e) (if extraStar env e then '*' :: '*' :: s else s) = '*' :: star env e s := by
+  unfold star
+  simp only [extraStar]
+  cases extraStar env e <;> simp
+
+set_option linter.unusedVariables false in
+mutual
+theorem real_eq_go (q : Str → Str) (env : Env) : ∀ t : GoType, strOk env t = true →
+    star env t (strC env t) = goStr q env t
+  | .alias _ a, h => by
+    have ih := real_eq_go q env a (by simpa [strOk] using h)
+    simpa [star, extraStar, strC, goStr] using ih
+  | .basic k, _ => by simp [star, extraStar, strC, goStr]
+  | .pointer e, h => by
+    have ih := real_eq_go q env e (by simpa [strOk] using h)
+    simp only [strC, goStr]
+    rw [star_pointer, ih]
+  | .slice e, h => by
+    have ih := real_eq_go q env e (by simpa [strOk] using h)
+    simp [star, extraStar, strC, goStr, ← ih]
+  | .array n e, h => by
+    have ih := real_eq_go q env e (by simpa [strOk] using h)
+    simp [star, extraStar, strC, goStr, ← ih]
+  | .map k v, h => by
+    simp only [strOk, Bool.and_eq_true, Bool.not_eq_true'] at h
+    have ihk := real_eq_go q env k h.1.2
+    have ihv := real_eq_go q env v h.2
+    have hk : strC env k = goStr q env k := by simpa [star, h.1.1] using ihk
+    simp [star, extraStar, strC, goStr, hk, ← ihv]
+  | .chan d e, h => by
+    simp only [strOk, Bool.and_eq_true, Bool.not_eq_true'] at h
+    have ih := real_eq_go q env e h.2
+    simp [star, extraStar, strC, goStr, h.1, ← ih]
+  | .func ps rs v, h => by
+    simp only [strOk, Bool.and_eq_true] at h
+    simp [star, extraStar, strC, goStr, params_eq_go q env ps v h.1, results_eq_go q env rs h.2]
+  | .struct fs, h => by
+    simp only [strOk, Bool.and_eq_true, Bool.not_eq_true'] at h
+    simp [star, extraStar, strC, goStr, h.1, fields_eq_go q env fs true h.2]
+  | .iface ms, h => by
+    simp [star, extraStar, strC, goStr, methods_eq_go q env ms true (by simpa [strOk] using h)]
+  | .named d pkg name sc targs, h => by
+    simp only [strOk, Bool.and_eq_true, Bool.not_eq_true'] at h
+    simp [star, extraStar, strC, goStr, h.1, targs_eq_go q env targs h.2]
+theorem params_eq_go (q : Str → Str) (env : Env) : ∀ (l : TList) (v : Bool), strOkL env l = true →
+    paramsC env l v = goParams q env l v
+  | .nil, _, _ => by simp [paramsC, goParams]
+  | .cons t r, v, h => by
+    simp only [strOkL, Bool.and_eq_true] at h
+    have iht := real_eq_go q env t h.1.1
+    have ihr := params_eq_go q env r v h.2
+    simp only [paramsC, goParams, ihr, iht]
+    cases t with
+    | slice e =>
+      have ihe := real_eq_go q env e (by simpa [strOk] using h.1.1)
+      simp [ihe]
+    | _ => rfl
+theorem results_eq_go (q : Str → Str) (env : Env) : ∀ l : TList, strOkL env l = true →
+    resultsC env l = goResults q env l
+  | .nil, _ => by simp [resultsC, goResults]
+  | .cons t r, h => by
+    simp only [strOkL, Bool.and_eq_true] at h
+    simp [resultsC, goResults, real_eq_go q env t h.1.1, more_eq_go q env r h.2]
+theorem more_eq_go (q : Str → Str) (env : Env) : ∀ l : TList, strOkL env l = true →
+    moreResultsC env l = goMoreResults q env l
+  | .nil, _ => by simp [moreResultsC, goMoreResults]
+  | .cons t r, h => by
+    simp only [strOkL, Bool.and_eq_true] at h
+    simp [moreResultsC, goMoreResults, real_eq_go q env t h.1.1, more_eq_go q env r h.2]
+theorem fields_eq_go (q : Str → Str) (env : Env) : ∀ (l : FList) (b : Bool), strOkF env l = true →
+    sfieldsC env l b = goFields q env l b
+  | .nil, _, _ => by simp [sfieldsC, goFields]
+  | .cons name pkg emb tag t r, b, h => by
+    simp only [strOkF, Bool.and_eq_true, beq_iff_eq] at h
+    simp [sfieldsC, goFields, real_eq_go q env t h.1.2, fields_eq_go q env r false h.2, h.1.1]
+theorem methods_eq_go (q : Str → Str) (env : Env) : ∀ (l : MList) (b : Bool), strOkM env l = true →
+    imethodsC env l b = goMethods q env l b
+  | .nil, _, _ => by simp [imethodsC, goMethods]
+  | .cons name pkg s r, b, h => by
+    simp only [strOkM, Bool.and_eq_true] at h
+    simp [imethodsC, goMethods, real_eq_go q env s h.1, methods_eq_go q env r false h.2]
+theorem targs_eq_go (q : Str → Str) (env : Env) : ∀ l : TList, strOkL env l = true →
+    targsC env l = goTargs q env l
+  | .nil, _ => by simp [targsC, goTargs]
+  | .cons t r, h => by
+    simp only [strOkL, Bool.and_eq_true] at h
+    simp [targsC, goTargs, targ_eq_go q env t h.1.1 h.1.2, targs_eq_go q env r h.2]
+theorem targ_eq_go (q : Str → Str) (env : Env) : ∀ t : GoType, strOk env t = true → targOk t = true →
+    star env t (targBaseC env t) = goTarg q env t
+  | .alias _ a, h, g => by
+    have ih := targ_eq_go q env a (by simpa [strOk] using h) (by simpa [targOk] using g)
+    simpa [star, extraStar, targBaseC, goTarg] using ih
+  | .basic k, _, _ => by simp [star, extraStar, targBaseC, goTarg]
+  | .pointer e, h, g => by
+    have ih := targ_eq_go q env e (by simpa [strOk] using h) (by simpa [targOk] using g)
+    simp only [targBaseC, goTarg]
+    rw [star_pointer, ih]
+  | .slice e, h, g => by
+    have ih := targ_eq_go q env e (by simpa [strOk] using h) (by simpa [targOk] using g)
+    simp [star, extraStar, targBaseC, goTarg, ← ih]
+  | .array n e, h, g => by
+    have ih := targ_eq_go q env e (by simpa [strOk] using h) (by simpa [targOk] using g)
+    simp [star, extraStar, targBaseC, goTarg, ← ih]
+  | .map k v, h, g => by
+    simp only [strOk, Bool.and_eq_true, Bool.not_eq_true'] at h
+    simp only [targOk, Bool.and_eq_true] at g
+    have ihk := targ_eq_go q env k h.1.2 g.1
+    have ihv := targ_eq_go q env v h.2 g.2
+    have hk : targBaseC env k = goTarg q env k := by simpa [star, h.1.1] using ihk
+    simp [star, extraStar, targBaseC, goTarg, hk, ← ihv]
+  | .chan d e, h, g => by
+    simp only [strOk, Bool.and_eq_true, Bool.not_eq_true'] at h
+    have ih := targ_eq_go q env e h.2 (by simpa [targOk] using g)
+    simp [star, extraStar, targBaseC, goTarg, h.1, ← ih]
+  | .func ps rs v, _, g => by simp [targOk] at g
+  | .struct fs, _, g => by simp [targOk] at g
+  | .iface ms, h, _ => by
+    simp [star, extraStar, targBaseC, goTarg, methods_eq_go q env ms true (by simpa [strOk] using h)]
+  | .named d pkg name sc targs, h, g => by
+    simp only [strOk, Bool.and_eq_true, Bool.not_eq_true'] at h
+    simp [star, extraStar, targBaseC, goTarg, h.1, targs_eq_go q env targs h.2]
+end
+
+/-! ## method tables -/
+
+/-- lexicographic `<` on texts by code point (= Go's byte order on their UTF-8 encodings) -/
+def strLt : Str → Str → Bool
+  | [], [] => false
+  | [], _ :: _ => true
+  | _ :: _, [] => false
+  | a :: as, b :: bs => if a.toNat < b.toNat then true else if b.toNat < a.toNat then false else strLt as bs
+
+/-- go/types delivers a method set strictly sorted by `Id` -/
+def SortedById (ms : List MethodIn) : Prop := ms.Pairwise fun a b => strLt (methodId a) (methodId b) = true
+
+/-- no method comes from a package under llgo's patch prefix (there `PathOf` rewrites the path) -/
+def noPatchPkg (ms : List MethodIn) : Bool := ms.all fun m =>
+  match m.pkg with
+  | none => true
+  | some p => !patchPrefix.isPrefixOf p
+
+theorem emittedName_eq_id (m : MethodIn) (h : (match m.pkg with | none => true | some p => !patchPrefix.isPrefixOf p) = true) :
+    emittedName m = methodId m := by
+  unfold emittedName methodId
+  cases hp : m.pkg with
+  | none => rfl
+  | some p =>
+    simp only [hp, Bool.not_eq_true'] at h
+    simp [pathOf, h]
+
+theorem methodTable_sorted : ∀ (ms : List MethodIn), SortedById ms → noPatchPkg ms = true →
+    (methodTable ms).Pairwise fun a b => strLt a.1 b.1 = true
+  | [], _, _ => by simp [methodTable]
+  | m :: ms, hs, hp => by
+    simp only [noPatchPkg, List.all_cons, Bool.and_eq_true] at hp
+    have hs' := List.pairwise_cons.1 hs
+    have ih := methodTable_sorted ms hs'.2 (by simpa [noPatchPkg] using hp.2)
+    simp only [methodTable, List.map_cons, List.pairwise_cons]
+    refine ⟨?_, by simpa [methodTable] using ih⟩
+    intro x hx
+    simp only [List.mem_map] at hx
+    obtain ⟨m', hm', rfl⟩ := hx
+    have hall : ∀ y ∈ ms, (match y.pkg with | none => true | some p => !patchPrefix.isPrefixOf p) = true := by
+      have := hp.2
+      simpa [List.all_eq_true] using this
+    rw [emittedName_eq_id m hp.1, emittedName_eq_id m' (hall m' hm')]
+    exact hs'.1 m' hm'
+
+/-- the field table is the field list, in order, with names, tags and embedding as declared -/
+theorem fieldTable_length : ∀ fs : FList, (fieldTable fs).length = fs.length
+  | .nil => rfl
+  | .cons _ _ _ _ _ r => by simp [fieldTable, FList.length, fieldTable_length r]
+
 end LlgoVerif.Types
